@@ -384,7 +384,8 @@ func run(c *rt.Ctx) {
 			}
 		}
 		for _, d := range []string{"mysql", "postgres"} {
-			for _, mode := range []int{0, int(migrate.PlanModeDeferred)} {
+			// every plan mode that promises dependency order (the unsorted dump does not, by name)
+			for _, mode := range []int{0, int(migrate.PlanModeInPlace), int(migrate.PlanModeDeferred), int(migrate.PlanModeDump)} {
 				cs.Dialect, cs.Mode = d, mode
 				cases = append(cases, cs)
 			}
@@ -449,7 +450,7 @@ func run(c *rt.Ctx) {
 			c.Sample(map[string]any{"case": cs, "plan": cmds, "verdict": "held"})
 		}
 	})
-	c.Finish("all FK digraphs with self loops over n ≤ 3 tables × all 3^n splits (created/dropped/kept) × kept-kept edge added/dropped (exhaustive), n = 4 sampled (quick) or all 65 536 graphs × {create-all, drop-all, 10 seeded splits} (thorough), random sparse graphs n = 5..8; × {MySQL, PostgreSQL} × plan mode {unset, deferred}. The real differ's change set is planned by the real planner and the plan is replayed in order, once via Source changes and once via the statement text, on a reference catalogue: FK target must exist (or be the table itself), no table dropped while a live foreign FK points at it, each table created/dropped exactly once, final catalogue == desired, no planning error. distinct = distinct multi-statement plan texts",
+	c.Finish("all FK digraphs with self loops over n ≤ 3 tables × all 3^n splits (created/dropped/kept) × kept-kept edge added/dropped (exhaustive), n = 4 sampled (quick) or all 65 536 graphs × {create-all, drop-all, 10 seeded splits} (thorough), random sparse graphs n = 5..8; × {MySQL, PostgreSQL} × plan mode {unset, in-place, deferred, dump}. The real differ's change set is planned by the real planner and the plan is replayed in order, once via Source changes and once via the statement text, on a reference catalogue: FK target must exist (or be the table itself), no table dropped while a live foreign FK points at it, each table created/dropped exactly once, final catalogue == desired, no planning error. distinct = distinct multi-statement plan texts",
 		map[string]any{"exhaustive_core_cases": exh3, "exhaustive": false})
 }
 
